@@ -97,6 +97,18 @@ Theorem C02_resolver_progress_measure :
 Proof. exact DepMeasure.dstep_decreases. Qed.
 Print Assumptions C02_resolver_progress_measure.
 
+(* and with the per-call-process executor underneath (Proofs/DepMeasureStep.v): every step decreases a
+   measure except a fruitless sleep of the resolver or a fruitless polling pass of the dispatcher *)
+From EL Require Proofs.DepMeasureStep.
+Theorem C02_resolver_percall_progress_measure :
+  forall c n prog d t d' l,
+    dinner c = IStep ->
+    wf_prog n prog -> wf_deps c n -> dreach c (dinit n prog) d -> dstep c d t = Some (d', l) ->
+    (t = TR -> DepMeasure.r_polling c d = false) -> (t = TD -> d_polling (xs d) = false) ->
+    DepMeasureStep.dmuS c n d' < DepMeasureStep.dmuS c n d.
+Proof. exact DepMeasureStep.dstep_decreases_step. Qed.
+Print Assumptions C02_resolver_percall_progress_measure.
+
 (* ---- REFUTED on the code as it is: witnesses by computation on the executable models
    (Proofs/Refute.v); each is a recorded finding (KNOWN_FINDINGS.txt) ---- *)
 From EL Require Model.Exec Model.ExecInv Model.StepExec Model.FileExec Model.FileSpec Model.CacheExec Proofs.FileSafe Proofs.FileRefute Proofs.CacheSafe Proofs.Refute.
